@@ -53,79 +53,81 @@ func (sms *sqlMetadataStore) listObjects(ctx context.Context, tx *sql.Tx, bucket
 	var objectEntities []object.Entity
 	if delimiter == "" {
 		objectEntities, err = sms.objectRepository.FindObjectsByBucketNameAndPrefixAndStartAfterOrderByKeyAscWithLimit(ctx, tx, bucketName, prefix, startAfter, maxKeys+1)
-		if err != nil {
-			return nil, err
-		}
-		if int32(len(objectEntities)) > maxKeys {
-			isTruncated = true
-			objectEntities = objectEntities[:maxKeys]
-		}
 	} else {
-		keyCount, err := sms.objectRepository.CountObjectsByBucketNameAndPrefixAndStartAfter(ctx, tx, bucketName, prefix, startAfter)
-		if err != nil {
-			return nil, err
-		}
-		isTruncated = int32(*keyCount) > maxKeys
 		objectEntities, err = sms.objectRepository.FindObjectsByBucketNameAndPrefixAndStartAfterOrderByKeyAsc(ctx, tx, bucketName, prefix, startAfter)
-		if err != nil {
-			return nil, err
-		}
+	}
+	if err != nil {
+		return nil, err
 	}
 
+	// When the listing continues after a common prefix, all keys grouped
+	// under that common prefix have already been reported by it.
+	skipPrefix := ""
+	if commonPrefix := determineCommonPrefix(prefix, startAfter, delimiter); commonPrefix != nil && *commonPrefix == startAfter {
+		skipPrefix = startAfter
+	}
+
+	// Objects and common prefixes form one sequence in key order (a common
+	// prefix stands at the position of its first key); maxKeys limits the
+	// number of entries of that merged sequence.
 	for _, objectEntity := range objectEntities {
-		if delimiter != "" {
-			commonPrefix := determineCommonPrefix(prefix, objectEntity.Key.String(), delimiter)
-			if commonPrefix != nil {
-				if _, seen := commonPrefixSet[*commonPrefix]; !seen {
-					commonPrefixSet[*commonPrefix] = struct{}{}
-					commonPrefixes = append(commonPrefixes, *commonPrefix)
-				}
+		if skipPrefix != "" && strings.HasPrefix(objectEntity.Key.String(), skipPrefix) {
+			continue
+		}
+		commonPrefix := determineCommonPrefix(prefix, objectEntity.Key.String(), delimiter)
+		if commonPrefix != nil {
+			if _, seen := commonPrefixSet[*commonPrefix]; seen {
+				continue
 			}
 		}
-		if int32(len(objects)) < maxKeys {
-			var parts []metadatastore.Part = nil
-			if !opts.SkipPartFetch {
-				// @Perf: Consider optimizing part fetch to reduce database calls
-				partEntities, err := sms.partRepository.FindPartsByObjectIdOrderBySequenceNumberAsc(ctx, tx, *objectEntity.Id)
-				if err != nil {
-					return nil, err
-				}
-				for _, partEntity := range partEntities {
-					partStruc := metadatastore.Part{
-						Id:                partEntity.PartId,
-						ETag:              partEntity.ETag,
-						ChecksumCRC32:     partEntity.ChecksumCRC32,
-						ChecksumCRC32C:    partEntity.ChecksumCRC32C,
-						ChecksumCRC64NVME: partEntity.ChecksumCRC64NVME,
-						ChecksumSHA1:      partEntity.ChecksumSHA1,
-						ChecksumSHA256:    partEntity.ChecksumSHA256,
-						Size:              partEntity.Size,
-						StoreName:         partEntity.PartStoreName,
-					}
-					parts = append(parts, partStruc)
-				}
+		if int32(len(objects)+len(commonPrefixes)) >= maxKeys {
+			isTruncated = true
+			break
+		}
+		if commonPrefix != nil {
+			commonPrefixSet[*commonPrefix] = struct{}{}
+			commonPrefixes = append(commonPrefixes, *commonPrefix)
+			continue
+		}
+		var parts []metadatastore.Part = nil
+		if !opts.SkipPartFetch {
+			// @Perf: Consider optimizing part fetch to reduce database calls
+			partEntities, err := sms.partRepository.FindPartsByObjectIdOrderBySequenceNumberAsc(ctx, tx, *objectEntity.Id)
+			if err != nil {
+				return nil, err
 			}
-			keyWithoutPrefix := strings.TrimPrefix(objectEntity.Key.String(), prefix)
-			if delimiter == "" || !strings.Contains(keyWithoutPrefix, delimiter) {
-				objects = append(objects, metadatastore.Object{
-					Key:               objectEntity.Key,
-					LastModified:      objectEntity.UpdatedAt,
-					VersionID:         objectEntity.VersionID,
-					IsDeleteMarker:    objectEntity.IsDeleteMarker,
-					ETag:              objectEntity.ETag,
-					ChecksumCRC32:     objectEntity.ChecksumCRC32,
-					ChecksumCRC32C:    objectEntity.ChecksumCRC32C,
-					ChecksumCRC64NVME: objectEntity.ChecksumCRC64NVME,
-					ChecksumSHA1:      objectEntity.ChecksumSHA1,
-					ChecksumSHA256:    objectEntity.ChecksumSHA256,
-					ChecksumType:      objectEntity.ChecksumType,
-					Size:              objectEntity.Size,
-					StorageClass:      objectEntity.StorageClass,
-					Parts:             parts,
-				})
-				listedObjectIds = append(listedObjectIds, *objectEntity.Id)
+			for _, partEntity := range partEntities {
+				partStruc := metadatastore.Part{
+					Id:                partEntity.PartId,
+					ETag:              partEntity.ETag,
+					ChecksumCRC32:     partEntity.ChecksumCRC32,
+					ChecksumCRC32C:    partEntity.ChecksumCRC32C,
+					ChecksumCRC64NVME: partEntity.ChecksumCRC64NVME,
+					ChecksumSHA1:      partEntity.ChecksumSHA1,
+					ChecksumSHA256:    partEntity.ChecksumSHA256,
+					Size:              partEntity.Size,
+					StoreName:         partEntity.PartStoreName,
+				}
+				parts = append(parts, partStruc)
 			}
 		}
+		objects = append(objects, metadatastore.Object{
+			Key:               objectEntity.Key,
+			LastModified:      objectEntity.UpdatedAt,
+			VersionID:         objectEntity.VersionID,
+			IsDeleteMarker:    objectEntity.IsDeleteMarker,
+			ETag:              objectEntity.ETag,
+			ChecksumCRC32:     objectEntity.ChecksumCRC32,
+			ChecksumCRC32C:    objectEntity.ChecksumCRC32C,
+			ChecksumCRC64NVME: objectEntity.ChecksumCRC64NVME,
+			ChecksumSHA1:      objectEntity.ChecksumSHA1,
+			ChecksumSHA256:    objectEntity.ChecksumSHA256,
+			ChecksumType:      objectEntity.ChecksumType,
+			Size:              objectEntity.Size,
+			StorageClass:      objectEntity.StorageClass,
+			Parts:             parts,
+		})
+		listedObjectIds = append(listedObjectIds, *objectEntity.Id)
 	}
 
 	// Load the tag sets of the whole page in one query, so per-object consumers
